@@ -27,6 +27,16 @@ def key_for(fm, parent_rec, op, what):
     return f'{fm.name}:{op[:2]}:{what}'
 
 
+def window_key(fm, op, p, lo, tell):
+    """named predicate: the last page boundary below the target belongs to a page that holds nothing but the tail of a packet begun on an
+    earlier page X, and the library landed inside X (it raw-seeks to X, i.e. to the end of the first packet of X)."""
+    k = fm.link_of_pos(p)
+    fx = fm.page_floor_decodable(p)          # boundary of the page X on which the spanning packet begins
+    if lo in fm.tailonly[k] and fm.page_floor(fx) <= tell <= fx:
+        return 'page_seek_behind_tail_only_page_lands_one_page_early'
+    return key_for(fm, None, op, 'page_seek_window')
+
+
 def judge_op(chk, fm, parent_H, parent_T, op, rc, tell, H, P, hist, stats):
     """Checks the landing rule of one seek transition. Returns nothing; records violations."""
     kind = op[:2]
@@ -53,7 +63,7 @@ def judge_op(chk, fm, parent_H, parent_T, op, rc, tell, H, P, hist, stats):
         else:
             lo = fm.page_floor(p)
             if not (lo <= tell <= p):
-                chk.violation(key_for(fm, None, op, 'page_seek_window'), f'{op} landed at {tell}, allowed [{lo},{p}]', rep)
+                chk.violation(window_key(fm, op, p, lo, tell), f'{op} landed at {tell}, allowed [{lo},{p}]', rep)
             stats['sigs'].add(('pp', fm.link_of_pos(p), tell == p, tell == lo))
     elif kind in ('ts', 'tp'):
         t = float(op[2:])
@@ -76,7 +86,7 @@ def judge_op(chk, fm, parent_H, parent_T, op, rc, tell, H, P, hist, stats):
         else:
             lo = fm.page_floor(max(p - 1, fm.start[k]))
             if not (lo <= tell <= p + 1):
-                chk.violation(key_for(fm, None, op, 'page_seek_window'), f'{op} landed at {tell}, allowed [{lo},{p + 1}]', rep)
+                chk.violation(window_key(fm, op, max(p - 1, fm.start[k]), lo, tell), f'{op} landed at {tell}, allowed [{lo},{p + 1}]', rep)
             stats['sigs'].add(('tp', k, tell == lo))
     elif kind == 'rs':
         o = int(op[2:])
@@ -153,6 +163,7 @@ def run(tier):
     vlib.build('plain')
     files = zoo.standard_files()
     files.update(zoo.large_files())          # links > CHUNKSIZE: quick explores them to depth 1 and sweeps with a stride
+    files.update(zoo.mux_files())            # multiplexed links with packets split over two pages
     exe, listfile, models = seekgraph.load_models(files)
     t_end = time.time() + (240 if tier == 'quick' else 1500)
     stats = {'rejections': 0, 'sigs': set()}
@@ -195,6 +206,7 @@ def replay(path):
     vlib.build('plain')
     files = zoo.standard_files()
     files.update(zoo.large_files())
+    files.update(zoo.mux_files())
     exe, listfile, models = seekgraph.load_models(files)
     fm = [m for m in models if m.name == r['replay']['file']][0]
     out = vlib.run_cases(exe, [f"{fm.idx} s - plin " + ' '.join(r['replay']['ops'])], ['--files', listfile], jobs=1)
